@@ -1,4 +1,5 @@
 import Mathlib.Tactic.Ring
+import Mathlib.Algebra.Order.Ring.Abs
 import Mathlib.Tactic.FieldSimp
 import Mathlib.Tactic.Linarith
 import Mathlib.Tactic.LinearCombination
@@ -132,5 +133,84 @@ theorem p4_span_identity (s2 t : K) (h : s2 ^ 2 = 2) (hs : s2 ≠ 0) :
   rw [hinv]
   linear_combination
     (2 * t ^ 8 - 8 * t ^ 7 + 8 * t ^ 6 + 4 * t ^ 5 - 9 * t ^ 4 + 2 * t ^ 3 + t ^ 2) * h
+
+theorem bern2_at_ratio (p0 p1 p2 N D : K) (hD : D ≠ 0) :
+    bern2 p0 p1 p2 (N / (2 * D)) = ((2 * D - N) ^ 2 * p0 + 2 * N * (2 * D - N) * p1 + N ^ 2 * p2) / (2 * D) ^ 2 := by
+  unfold bern2; field_simp
+
+theorem mid_frame_attains (cd sd cb sb : K) (hd : cd ^ 2 + sd ^ 2 = 1) (hb : cb ^ 2 + sb ^ 2 = 1)
+    (hsd : sd ≠ 0) (hcb : 1 + cb ≠ 0) :
+    bern2 cd 1 cd ((sd * (1 + cb) + sb * (1 + cd)) / (2 * (sd * (1 + cb))))
+      = cb * bern2 1 cd 1 ((sd * (1 + cb) + sb * (1 + cd)) / (2 * (sd * (1 + cb)))) ∧
+    bern2 (-sd) 0 sd ((sd * (1 + cb) + sb * (1 + cd)) / (2 * (sd * (1 + cb))))
+      = sb * bern2 1 cd 1 ((sd * (1 + cb) + sb * (1 + cd)) / (2 * (sd * (1 + cb)))) := by
+  have hD : sd * (1 + cb) ≠ 0 := mul_ne_zero hsd hcb
+  have h2D : (2 * (sd * (1 + cb))) ^ 2 ≠ 0 := pow_ne_zero 2 (mul_ne_zero two_ne_zero hD)
+  rw [bern2_at_ratio _ _ _ _ _ hD, bern2_at_ratio _ _ _ _ _ hD, bern2_at_ratio _ _ _ _ _ hD]
+  constructor
+  · rw [← mul_div_assoc, div_left_inj' h2D]
+    linear_combination (2 * sb ^ 2 * (cb + 1) * (cd + 1)) * hd + (-2 * sd ^ 2 * (cb + 1) * (cd + 1)) * hb
+  · rw [← mul_div_assoc, div_left_inj' h2D]
+    linear_combination (2 * sb ^ 3 * (cd + 1)) * hd + (-2 * sb * sd ^ 2 * (cd + 1)) * hb
+
+/-- **Every direction within a span is attained, at an explicit parameter.**  Span with start angle
+`(c0, s0)`, half-angle `(cd, sd)`, mid direction `(cm, sm)`; target direction `(c1, s1)`;
+`(cb, sb)` = the target relative to the mid direction.  With
+`u = 1/2 + (sb/(1+cb)) / (sd/(1+cd)) / 2` (half-angle tangents!) the homogeneous span point is
+`r·(c1, s1)·W(u)`; `u ∈ [0,1]` as soon as `cos β ≥ cos dt`. -/
+theorem arc_span_attains (r c0 s0 cd sd c1 s1 : K) (h0 : c0 ^ 2 + s0 ^ 2 = 1) (hd : cd ^ 2 + sd ^ 2 = 1)
+    (h1 : c1 ^ 2 + s1 ^ 2 = 1) (hsd : sd ≠ 0)
+    (hcb : 1 + (c1 * (c0 * cd - s0 * sd) + s1 * (s0 * cd + c0 * sd)) ≠ 0) :
+    let cm := c0 * cd - s0 * sd
+    let sm := s0 * cd + c0 * sd
+    let cb := c1 * cm + s1 * sm
+    let sb := s1 * cm - c1 * sm
+    let u := (sd * (1 + cb) + sb * (1 + cd)) / (2 * (sd * (1 + cb)))
+    bern2 (r * c0) (r * cm) (r * (cm * cd - sm * sd)) u = r * c1 * bern2 1 cd 1 u ∧
+    bern2 (r * s0) (r * sm) (r * (sm * cd + cm * sd)) u = r * s1 * bern2 1 cd 1 u ∧
+    (0 < sd → -1 < cd → cd ≤ cb → 0 ≤ u ∧ u ≤ 1) := by
+  intro cm sm cb sb u
+  have hm : cm ^ 2 + sm ^ 2 = 1 := by
+    simp only [cm, sm]; linear_combination (cd ^ 2 + sd ^ 2) * h0 + hd
+  have hb : cb ^ 2 + sb ^ 2 = 1 := by
+    simp only [cb, sb]; linear_combination (cm ^ 2 + sm ^ 2) * h1 + hm
+  obtain ⟨eX, eY⟩ := mid_frame_attains cd sd cb sb hd hb hsd hcb
+  change bern2 cd 1 cd u = cb * bern2 1 cd 1 u at eX
+  change bern2 (-sd) 0 sd u = sb * bern2 1 cd 1 u at eY
+  have lX : bern2 (r * c0) (r * cm) (r * (cm * cd - sm * sd)) u
+      = r * (cm * bern2 cd 1 cd u - sm * bern2 (-sd) 0 sd u) := by
+    simp only [bern2, cm, sm]; linear_combination (-(r * (1 - u) ^ 2 * c0)) * hd
+  have lY : bern2 (r * s0) (r * sm) (r * (sm * cd + cm * sd)) u
+      = r * (sm * bern2 cd 1 cd u + cm * bern2 (-sd) 0 sd u) := by
+    simp only [bern2, cm, sm]; linear_combination (-(r * (1 - u) ^ 2 * s0)) * hd
+  refine ⟨?_, ?_, ?_⟩
+  · rw [lX, eX, eY]
+    simp only [cb, sb]
+    linear_combination (r * c1 * bern2 1 cd 1 u) * hm
+  · rw [lY, eX, eY]
+    simp only [cb, sb]
+    linear_combination (r * s1 * bern2 1 cd 1 u) * hm
+  · intro hsd0 hcd hle
+    have hcbpos : 0 < 1 + cb := by linarith
+    have hD : 0 < sd * (1 + cb) := mul_pos hsd0 hcbpos
+    have hsq : (sb * (1 + cd)) ^ 2 ≤ (sd * (1 + cb)) ^ 2 := by
+      have e1 : (sb * (1 + cd)) ^ 2 = (1 - cb) * (1 + cb) * (1 + cd) ^ 2 := by
+        have : sb ^ 2 = (1 - cb) * (1 + cb) := by linear_combination hb
+        rw [mul_pow, this]
+      have e2 : (sd * (1 + cb)) ^ 2 = (1 - cd) * (1 + cd) * (1 + cb) ^ 2 := by
+        have : sd ^ 2 = (1 - cd) * (1 + cd) := by linear_combination hd
+        rw [mul_pow, this]
+      rw [e1, e2]
+      have hcdpos : 0 < 1 + cd := by linarith
+      have : 0 ≤ (1 + cb) * (1 + cd) * (2 * (cb - cd)) :=
+        mul_nonneg (mul_nonneg (le_of_lt hcbpos) (le_of_lt hcdpos)) (by linarith)
+      have key : (1 - cd) * (1 + cd) * (1 + cb) ^ 2 - (1 - cb) * (1 + cb) * (1 + cd) ^ 2
+          = (1 + cb) * (1 + cd) * (2 * (cb - cd)) := by ring
+      linarith
+    obtain ⟨hlo, hhi⟩ := abs_le_of_sq_le_sq' hsq (le_of_lt hD)
+    have h2D : 0 < 2 * (sd * (1 + cb)) := by linarith
+    constructor
+    · apply div_nonneg _ (le_of_lt h2D); linarith
+    · rw [div_le_one h2D]; linarith
 
 end Splipy.Fac
